@@ -10,7 +10,7 @@ run_suite() { make clean >/dev/null 2>&1; make -j8 >build.log 2>&1 || { echo BUI
 # extra gcc flags / run arguments for the demonstration may be given in $sd/demo.flags / $sd/demo.args
 demo() {
   rm -rf _seed; cp -r "$sd" _seed
-  if [ -f _seed/demo.c ]; then gcc -Iinclude -I. _seed/demo.c libeav.a -lidn2 -lpthread $(cat _seed/demo.flags 2>/dev/null) -o _seed/demo.bin 2>demo.build || { echo "demo-build-failed"; cat demo.build | head; return 99; }; ./_seed/demo.bin $(cat _seed/demo.args 2>/dev/null) >demo.out 2>&1; return $?
+  if [ -f _seed/demo.c ] && [ ! -f _seed/demo.sh ]; then gcc -Iinclude -I. _seed/demo.c libeav.a -lidn2 -lpthread $(cat _seed/demo.flags 2>/dev/null) -o _seed/demo.bin 2>demo.build || { echo "demo-build-failed"; cat demo.build | head; return 99; }; ./_seed/demo.bin $(cat _seed/demo.args 2>/dev/null) >demo.out 2>&1; return $?
   else sh _seed/demo.sh >demo.out 2>&1; return $?; fi; }
 run_suite > base.txt; demo; d0=$?
 git init -q . 2>/dev/null; git apply "$sd/patch.diff" || { echo "RESULT patch-does-not-apply"; exit 1; }
